@@ -151,6 +151,8 @@ var vkCands = []vkCand{
 	// the "alias a whole zone" deployment: the DNAME sits at the apex, whose NSEC/NSEC3 bitmap therefore
 	// carries SOA and DNAME together; every name below the apex is then below a DNAME
 	14: {Rel: []string{}, Types: []uint16{dns.TypeDNAME}, Role: "dname", Desc: "apex DNAME"},
+	// a secure delegation that is NOT the canonically last subtree of the zone (b, a.b, A.b sort after it)
+	15: {Rel: []string{"a"}, Types: []uint16{dns.TypeNS, dns.TypeDS}, Role: "deleg", Desc: "a NS DS (secure delegation)"},
 }
 
 // vkEnumZones returns every admissible subset of candidates of size <= maxOwners
